@@ -611,6 +611,17 @@ func (g *G) rangeStmt(sc *scope, depth int) []string {
 }
 
 func (g *G) multiDefine(sc *scope, depth int) []string {
+	if g.generics && g.chance("gswapdefine", 25) {
+		ta, tb := g.scalarTy("gswapa"), g.scalarTy("gswapb")
+		ea, eb := g.expr(sc, ta, 1), g.expr(sc, tb, 1)
+		na := g.freshName(sc, "gsa")
+		nb := g.freshName(sc, "gsb", na)
+		g.declare(sc, &Var{Name: na, T: tb})
+		g.declare(sc, &Var{Name: nb, T: ta})
+		g.label("generic-call")
+		g.label("multi-define")
+		return []string{fmt.Sprintf("%s, %s := gswap(%s, %s)", na, nb, castLit(ta, ea), castLit(tb, eb))}
+	}
 	var cands []*FuncSig
 	for _, h := range g.helpers {
 		if len(h.Results) >= 2 && h != g.fn.sig && (!g.fn.pure || h.Pure) {
@@ -932,4 +943,13 @@ func (g *G) nestedFieldStore(sc *scope, depth int) []string {
 		return nil
 	}
 	return alts[g.pick("nestedalt", len(alts))]()
+}
+
+// castLit gives an integer literal argument of a generic call its type
+// (type inference would otherwise make it an int).
+func castLit(t *Ty, e string) string {
+	if t.IsInt() && isLiteral(e) {
+		return map[Kind]string{KU64: "uint64", KU32: "uint32", KU8: "byte"}[t.K] + "(" + e + ")"
+	}
+	return e
 }
